@@ -20,7 +20,8 @@ DISTINCT = ('cells',)
 REQUIRED = ('mode_raw', 'mode_binary_file', 'mode_text_file', 'mode_pickle_inline', 'mode_pickle_file',
             'streams', 'rejected_values', 'jsondisk_roundtrips', 'deque_roundtrips', 'index_roundtrips',
             'fanout_roundtrips', 'push_roundtrips', 'fault_injected_stores', 'configs_lookup_in_transaction',
-            'configs_lookup_lock_free', 'relative_directory_roundtrips', 'relocated_directory_roundtrips')
+            'configs_lookup_lock_free', 'relative_directory_roundtrips', 'relocated_directory_roundtrips',
+            'lookups_through_unpickled_handle')
 ASSUMPTIONS = ('equality oracle: same type, same bits for floats, same code points, same bytes, recursive for containers',
                'JSONDisk is exercised with JSON fixed-point values only (no tuples, non-str dict keys, bytes)')
 
@@ -202,6 +203,9 @@ def run_config(dc, sc, res, rng, T, proto, disk_name, level, budget):
     obs = observe.Observer(d)
     case = Case(res, cfg_label, signature)
     n = 0
+    # what a worker process or a task queue gets: the handle after a round trip through pickle (same Disk class, same
+    # serializer settings), and a handle opened by directory with the Disk class given again
+    twin = pickle.loads(pickle.dumps(cache))
     try:
         vals = list(values(rng, T, json_only))
         rng.shuffle(vals)
@@ -245,6 +249,8 @@ def run_config(dc, sc, res, rng, T, proto, disk_name, level, budget):
             # ---- every accessor
             ok = case.judge(cls, path, 'get', v, cache.get(key), mode)
             ok &= case.judge(cls, path, 'getitem', v, cache[key], mode)
+            ok &= case.judge(cls, path, 'get through an unpickled handle', v, twin.get(key, '<MISSING>'), mode)
+            res.count('lookups_through_unpickled_handle')
             got3 = cache.get(key, expire_time=True, tag=True)
             ok &= case.judge(cls, path, 'get(expire_time,tag)', v, got3[0], mode)
             if not json_only:
@@ -313,6 +319,7 @@ def run_config(dc, sc, res, rng, T, proto, disk_name, level, budget):
     finally:
         obs.close()
         cache.close()
+        twin.close()
         sc.drop(d)
 
 
